@@ -253,7 +253,8 @@ def check(tier, seed):
         return None
 
     return R.finish(RULE, search=search,
-                    partial_note="see Properties/C08.v for what is proved of the tree-level traverse; the rest is this run's spec oracle")
+                    partial_note="tree-level and database-level traverse / traverse_from theorems and the read accounting are proved (Properties/C08.v); the "
+                                 "counting of actual database reads is observed through a proxy db")
 
 
 def replay(payload):
